@@ -196,10 +196,13 @@ class Collected(Found):
         super().add(sig, what, replay, strong)
 
 
-def stream_payload(kind, cls, cfg, batches, step):
+def stream_payload(kind, cls, cfg, batches, step, pre=()):
     """replayable history of an update stream: class, configuration, the first `step` updates (tensors with dtype and shape)
     and the step whose compute() (or update()) is judged"""
-    return {"kind": kind, "class": cls, "cfg": cfg, "updates": [b.describe() for b in batches[:step]], "step": step}
+    d = {"kind": kind, "class": cls, "cfg": cfg, "updates": [b.describe() for b in batches[:step]], "step": step}
+    if pre:
+        d["before_reset"] = [b.describe() for b in pre]      # updates that were applied and then wiped by reset()
+    return d
 
 
 def tol_of(cls):
@@ -211,8 +214,12 @@ def cfg_label(cfg):
 
 # ------------------------------------------------------------------ (1) update streams, four update-granular classes
 
-def stream_prog(cls, cfg, batches):
+def stream_prog(cls, cfg, batches, pre=()):
     p = Prog(BY_NAME[cls], cfg)
+    for b in pre:                 # a history that reset() must wipe completely — cursor included
+        p.u(0, b)
+    if pre:
+        p.r(0)
     p.o(0)
     for b in batches:
         p.u(0, b)
@@ -220,15 +227,20 @@ def stream_prog(cls, cfg, batches):
     return p
 
 
-def check_stream(rep: Report, found: Found, cls, cfg, batches, progs):
+def check_stream(rep: Report, found: Found, cls, cfg, batches, progs, pre=()):
     N = cfg["max_num_updates"]
     life = cfg.get("enable_lifetime", True)
-    p = stream_prog(cls, cfg, batches)
+    p = stream_prog(cls, cfg, batches, pre)
     real = run_real(p)
     progs.append((p, real, tol_of(cls)))
     tol = tol_of(cls)
     k = 0
-    for op, r in zip(p.ops, real):
+    skip = len(pre) + 1 if pre else 0          # the wiped history and the reset itself
+    _sp = globals()["stream_payload"]
+
+    def stream_payload(kind, c, cf, bs, step):          # payloads of this stream carry the wiped history
+        return _sp(kind, c, cf, bs, step, pre)
+    for op, r in list(zip(p.ops, real))[skip:]:
         if op[0] == "u":
             k += 1
             if r is not None:
@@ -410,10 +422,11 @@ def compare_merge(rep, found, cls, cfg, p, m, pools, alls, sig_rel, label):
         found.add(f"C13|{cls}|{sig_rel}", f"{cls}({cfg_label(cfg)}) {label}: compute() raised {r[1]}, expected {exp_w}", payload)
         return
     win = vals(r[1][-1])
-    if not close(win, exp_w, tol):
+    und = cls == "WindowedWeightedCalibration"      # undefined ratios (zero target weight) are outside the comparison
+    if not close(win, exp_w, tol, undefined_ok=und):
         found.add(f"C13|{cls}|{sig_rel}",
                   f"{cls}({cfg_label(cfg)}) {label}: windowed {win}, non-windowed metric over the pooled live entries = {exp_w}", payload)
-    elif exp_l is not None and len(r[1]) == 2 and close(vals(r[1][0]), exp_l, tol) is False:
+    elif exp_l is not None and len(r[1]) == 2 and close(vals(r[1][0]), exp_l, tol, undefined_ok=und) is False:
         found.add(f"C13|{cls}|{label}|lifetime-ne-all",
                   f"{cls}({cfg_label(cfg)}) {label}: lifetime {vals(r[1][0])}, expected {exp_l}", payload)
 
@@ -539,7 +552,13 @@ def run(rep: Report):
                 batches = [gen_batch(cls, cfg, rng, rng.choice([1, 2, 3]), weighted, zero_w=weighted and rng.random() < 0.2)
                            for _ in range(nb)]
                 rep.count(f"{cls}:streams-with-zero-weight-update", int(weighted))
-                check_stream(rep, found, cls, cfg, batches, progs)
+                pre = []
+                if rng.random() < 0.35:
+                    # a reset in the history: k updates (k not a multiple of N when possible), reset(), then the stream
+                    kpre = rng.choice([x for x in range(1, 2 * N + 2) if x % N] or [1])
+                    pre = [gen_batch(cls, cfg, rng, rng.choice([1, 2, 3]), weighted) for _ in range(kpre)]
+                    rep.count(f"{cls}:streams-after-reset")
+                check_stream(rep, found, cls, cfg, batches, progs, pre)
     # (2) AUROC sample streams
     for N in NS:
         for t in (1, 2):
@@ -626,7 +645,7 @@ def replay(payload) -> bool:
         if cls == AUROC:
             check_auroc_stream(rep, found, cfg, bs[:step], [])
         else:
-            check_stream(rep, found, cls, cfg, bs[:step], [])
+            check_stream(rep, found, cls, cfg, bs[:step], [], [Batch.from_describe(d) for d in rp.get("before_reset") or []])
         at_step = [(sig, what) for sig, what, pl in found.all if pl.get("step") == step]
         for sig, what in at_step:
             print(f"replay: {sig}: {what}"[:600])
